@@ -676,7 +676,7 @@ func main() {
 	})
 
 	// multi-polygons mixing polygons that cross the box with polygons wholly inside it (with holes)
-	r.Explore("multipolygon-inside-members", "multi-polygons of 1..2 polygons crossing the general-position box (one optionally with a hole far outside the box), a polygon wholly inside it with 0..2 holes and optionally a polygon far from the box, every order of the members, both orientations: region, and the inside polygon keeps exactly its own holes", mc.Opts{MaxDev: -1}, func(c *mc.Ctx) {
+	r.Explore("multipolygon-inside-members", "multi-polygons of 1..2 polygons crossing the general-position box (one optionally with a hole far outside the box and / or a hole the box cuts), a polygon wholly inside it with 0..2 holes and optionally a polygon far from the box, every order of the members, both orientations: region, and the inside polygon keeps exactly its own holes", mc.Opts{MaxDev: -1}, func(c *mc.Ctx) {
 		o := orb.CCW
 		if c.Bool() {
 			o = orb.CW
@@ -709,6 +709,13 @@ func main() {
 		if c.Bool() {
 			a = append(a, wind(farHole, o != orb.CCW))
 		}
+		// a hole of the crossing polygon that the box cuts (through its right side only): its section becomes part of
+		// the cut polygon's boundary, while the inside polygon and its holes are carried over untouched next to it
+		cutHole := orb.Ring{{2.7, 2.35}, {3.3, 2.35}, {3.3, 2.45}, {2.7, 2.45}, {2.7, 2.35}}
+		withCut := c.Bool()
+		if withCut {
+			a = append(a, wind(cutHole, o != orb.CCW))
+		}
 		members := []orb.Polygon{a, in}
 		two := c.Bool()
 		if two {
@@ -728,6 +735,9 @@ func main() {
 		got := smartclip.MultiPolygon(gbox, mp.Clone(), o)
 		desc := fmt.Sprintf("box=%v orientation=%d multipolygon=%v result=%v", gbox, o, mp, got)
 		inOrig := func(q qpt) bool {
+			if withCut && inFloat(cutHole, q.f) {
+				return false
+			}
 			if inFloat(crossA, q.f) || (two && inFloat(crossB, q.f)) {
 				return true
 			}
